@@ -385,7 +385,7 @@ def finish(args, mod, merged, wall):
     for name in ("states", "transitions"):
         if name in merged["counters"]:
             coverage[name] = merged["counters"][name]
-    coverage["covered_classes"] = {k: sorted(v)[:80] for k, v in merged.get("covers", {}).items()}
+    coverage["covered_classes"] = {k: sorted(v, key=str)[:80] for k, v in merged.get("covers", {}).items()}
     for k, v in merged["flags"].items():
         if k == "traceback":
             coverage["harness_traceback"] = v
